@@ -188,7 +188,7 @@ Proof.
   destruct o as [x|tm|f]; cbn [cwop_step].
   - pose proof (add_rel c n w p x R) as A. destruct (cw_add c n w x) as [[w1 b] armed].
     destruct b as [batch|].
-    + destruct A as (A0 & A1 & A2 & _). cbn [fst]. rewrite A0. split; auto. apply IH; auto.
+    + destruct A as (A0 & A1 & A2 & _). cbn [fst]. rewrite A0. split; auto.
     + destruct A as (A1 & _). cbn [fst]. apply IH; auto.
   - pose proof (fire_rel c tm w p R) as A. destruct (cw_fire tm w) as [w1 b].
     destruct b as [batch|]; [destruct A as (A1 & A2); split; auto|]; apply IH; auto.
@@ -214,8 +214,8 @@ Definition out_of (i : nat) (out : list (N * nat * list citem)) := filter (fun e
 
 (* instance i exists, is in nobody's hands and holds nothing *)
 Definition silent (s : pst) (i : nat) : Prop :=
-  i < p_next s /\ mapped s i = false /\ referenced s i = false /\
-  exists w, lookup (p_inst s) i = Some w /\ dead w.
+  i < p_next s /\ mapped s i = false /\
+  exists w, lookup (p_inst s) i = Some w /\ dead w /\ cw_closed w = true.
 
 Lemma lookupN_mapped {A} (l : list (N * A)) ch v : lookupN l ch = Some v -> In (ch, v) l.
 Proof.
@@ -269,51 +269,47 @@ Proof.
   - apply IH; auto.
 Qed.
 
-(* a silent instance stays silent and emits nothing, whatever happens *)
+(* a silent instance stays silent and emits nothing, whatever happens -- including the second half of
+   an Add call that obtained it before it was closed *)
 Lemma silent_step cf s l s' i : silent s i -> pstep cf s l = Some s' ->
   silent s' i /\ out_of i (p_out s') = out_of i (p_out s).
 Proof.
-  intros (Hlt & Hm & Hr & w & Hw & Hd) H. destruct l; cbn [pstep] in H.
+  intros (Hlt & Hm & w & Hw & Hd & Hcl) H. unfold pstep in H. destruct l; cbn [pstep_gen] in H.
   - (* PGet *)
     destruct (lookup (p_refs s) t); [discriminate|].
     destruct (lookupN (p_map s) ch) as [j|] eqn:Ej; injection H as <-; cbn.
-    + split; auto. assert (Hji : j <> i).
-      { intros ->. apply lookupN_mapped in Ej. apply mapped_in in Ej. congruence. }
-      unfold silent, mapped, referenced in *; cbn. repeat split; auto.
-      * replace (j =? i) with false by (symmetry; apply Nat.eqb_neq; auto). exact Hr.
-      * eauto.
-    + split; auto. unfold silent, mapped, referenced in *; cbn.
+    + split; auto. unfold silent, mapped in *; cbn. repeat split; auto. eauto.
+    + split; auto. unfold silent, mapped in *; cbn.
       replace (p_next s =? i) with false by (symmetry; apply Nat.eqb_neq; lia).
-      repeat split; auto. exists w. split; auto.
+      repeat split; auto. exists w. auto.
   - (* PAdd *)
     destruct (lookup (p_refs s) t) as [[ch j]|] eqn:Et; [|discriminate].
     destruct (lookup (p_inst s) j) as [wj|] eqn:Ej; [|discriminate].
-    destruct (cw_add (cf ch) (p_next s) wj x) as [[w1 b] armed]. injection H as <-.
-    assert (Hji : j <> i).
-    { intros ->. apply lookup_in in Et. apply referenced_in in Et. congruence. }
-    cbn. split; [|apply out_of_emit; auto].
-    unfold silent, mapped, referenced in *; cbn.
-    replace (j =? i) with false by (symmetry; apply Nat.eqb_neq; auto).
-    repeat split; auto.
-    + destruct armed; lia.
-    + unfold remove_k. apply existsb_filter_false. exact Hr.
-    + eauto.
+    destruct (Nat.eq_dec j i) as [->|Hji].
+    + rewrite Hw in Ej. injection Ej as <-. fold (cw_add (cf ch) (p_next s) w x) in H.
+      rewrite add_closed in H by auto. injection H as <-. cbn. split; auto.
+      unfold silent, mapped; cbn. rewrite Nat.eqb_refl. repeat split; auto. exists w. auto.
+    + destruct (cw_add_gen true (cf ch) (p_next s) wj x) as [[w1 b] armed]. injection H as <-.
+      cbn. split; [|apply out_of_emit; auto].
+      unfold silent, mapped in *; cbn.
+      replace (j =? i) with false by (symmetry; apply Nat.eqb_neq; auto).
+      repeat split; auto; [destruct armed; lia|eauto].
   - (* PFire *)
     destruct (lookup (p_timers s) tm) as [j|]; [|discriminate].
     destruct (lookup (p_inst s) j) as [wj|] eqn:Ej; [|discriminate].
     destruct (Nat.eq_dec j i) as [->|Hji].
     + rewrite Hw in Ej. injection Ej as <-. destruct Hd as (D1 & D2 & D3).
       rewrite stale_fire in H by (rewrite D3; discriminate). injection H as <-. cbn.
-      split; auto. unfold silent, mapped, referenced; cbn. rewrite Nat.eqb_refl.
+      split; auto. unfold silent, mapped; cbn. rewrite Nat.eqb_refl.
       repeat split; auto. exists w. repeat split; auto.
     + destruct (cw_fire tm wj) as [w1 b]. injection H as <-. cbn. split; [|apply out_of_emit; auto].
-      unfold silent, mapped, referenced in *; cbn.
+      unfold silent, mapped in *; cbn.
       replace (j =? i) with false by (symmetry; apply Nat.eqb_neq; auto). repeat split; auto. eauto.
   - (* PCancelled *)
     destruct (lookup (p_timers s) tm) as [j|]; [|discriminate].
     destruct (lookup (p_inst s) j) as [wj|]; [|discriminate].
     destruct (cw_timer wj) as [t|]; [destruct (t =? tm); [discriminate|]|]; injection H as <-; cbn;
-      (split; auto; unfold silent, mapped, referenced in *; cbn; repeat split; auto; eauto).
+      (split; auto; unfold silent, mapped in *; cbn; repeat split; auto; eauto).
   - (* PDel *)
     destruct (lookupN (p_map s) ch) as [j|] eqn:Ej.
     + destruct (lookup (p_inst s) j) as [wj|] eqn:Ew; [|discriminate].
@@ -321,7 +317,7 @@ Proof.
       assert (Hji : j <> i).
       { intros ->. apply lookupN_mapped in Ej. apply mapped_in in Ej. congruence. }
       cbn. split; [|apply out_of_emit; auto].
-      unfold silent, mapped, referenced in *; cbn.
+      unfold silent, mapped in *; cbn.
       replace (j =? i) with false by (symmetry; apply Nat.eqb_neq; auto). repeat split; auto.
       * unfold removeN. apply existsb_filter_false. exact Hm.
       * eauto.
@@ -331,15 +327,15 @@ Proof.
     unfold close_mapped in Ec.
     destruct (close_mapped_other flush i (p_map s) (p_inst s) (p_out s) w Hm Hw) as (A & B).
     rewrite Ec in A, B. cbn in A, B. split; auto.
-    unfold silent, mapped, referenced in *; cbn. repeat split; auto. eauto.
+    unfold silent, mapped in *; cbn. repeat split; auto. eauto.
 Qed.
 
 Lemma silent_run cf sched : forall s s' i, silent s i -> prun cf s sched = Some s' ->
   silent s' i /\ out_of i (p_out s') = out_of i (p_out s).
 Proof.
-  induction sched as [|l sched IH]; intros s s' i Hs; cbn [prun].
+  unfold prun. induction sched as [|l sched IH]; intros s s' i Hs; cbn [prun_gen].
   - intros [= <-]. auto.
-  - destruct (pstep cf s l) as [s1|] eqn:E; [|discriminate]. intros H.
+  - destruct (pstep_gen true cf s l) as [s1|] eqn:E; [|discriminate]. intros H.
     destruct (silent_step cf s l s1 i Hs E) as (S1 & O1).
     destruct (IH s1 s' i S1 H) as (S2 & O2). split; auto. congruence.
 Qed.
@@ -394,7 +390,7 @@ Qed.
 
 Lemma WFp_step cf s l s' : WFp s -> pstep cf s l = Some s' -> WFp s'.
 Proof.
-  intros (ND & Hm & Hi) H. destruct l; cbn [pstep] in H.
+  intros (ND & Hm & Hi) H. unfold pstep in H. destruct l; cbn [pstep_gen] in H.
   - destruct (lookup (p_refs s) t); [discriminate|].
     destruct (lookupN (p_map s) ch) as [j|] eqn:Ej; injection H as <-; unfold WFp; cbn.
     + auto.
@@ -407,7 +403,7 @@ Proof.
       * intros i w. destruct (p_next s =? i) eqn:E; [apply Nat.eqb_eq in E; lia|]. intros Hl. specialize (Hi i w Hl). lia.
   - destruct (lookup (p_refs s) t) as [[ch j]|]; [|discriminate].
     destruct (lookup (p_inst s) j) as [wj|] eqn:Ej; [|discriminate].
-    destruct (cw_add (cf ch) (p_next s) wj x) as [[w1 b] armed]. injection H as <-. unfold WFp; cbn.
+    destruct (cw_add_gen true (cf ch) (p_next s) wj x) as [[w1 b] armed]. injection H as <-. unfold WFp; cbn.
     split; auto. split.
     + intros c i Hin. destruct (Hm c i Hin) as (A & B). split; [destruct armed; lia|]. destruct (j =? i); [discriminate|auto].
     + intros i w. destruct (j =? i) eqn:E.
@@ -440,35 +436,36 @@ Qed.
 
 Lemma WFp_run cf sched : forall s s', WFp s -> prun cf s sched = Some s' -> WFp s'.
 Proof.
-  induction sched as [|l sched IH]; intros s s' W; cbn [prun].
+  unfold prun. induction sched as [|l sched IH]; intros s s' W; cbn [prun_gen].
   - intros [= <-]. auto.
-  - destruct (pstep cf s l) as [s1|] eqn:E; [|discriminate]. intros H.
+  - destruct (pstep_gen true cf s l) as [s1|] eqn:E; [|discriminate]. intros H.
     eapply IH; [eapply WFp_step; eauto|exact H].
 Qed.
 
-Lemma cw_close_false_dead w : dead (fst (cw_close false w)).
+Lemma cw_close_false_dead w : dead (fst (cw_close false w)) /\ cw_closed (fst (cw_close false w)) = true.
 Proof. unfold cw_close, dead; cbn. auto. Qed.
 
 (* "Nothing buffered for a channel is delivered after the subscription ended":
-   once delWriter(ch, false) has run, the writer instance that served ch never calls flushFn again --
-   provided no perChannelWriter.Add call that obtained this instance is still in flight. *)
+   once delWriter(ch, false) has run, the writer instance that served ch never calls flushFn again,
+   whatever happens afterwards -- including perChannelWriter.Add calls that had obtained this instance
+   before the delWriter and complete after it (their item is dropped by the closed writer). *)
 Theorem nothing_after_unsubscribe cf sched1 s1 ch i s2 sched2 s3 :
   prun cf p_init sched1 = Some s1 ->
-  lookupN (p_map s1) ch = Some i -> referenced s1 i = false ->
+  lookupN (p_map s1) ch = Some i ->
   pstep cf s1 (PDel ch false) = Some s2 -> prun cf s2 sched2 = Some s3 ->
   out_of i (p_out s3) = out_of i (p_out s1).
 Proof.
-  intros H1 Hm Hr H2 H3.
+  intros H1 Hm H2 H3.
   pose proof (WFp_run cf sched1 _ _ WFp_init H1) as (ND & HM & HI).
   assert (Hin : In (ch, i) (p_map s1)) by (apply lookupN_mapped; auto).
   destruct (HM ch i Hin) as (Hlt & Hex).
-  cbn [pstep] in H2. rewrite Hm in H2. destruct (lookup (p_inst s1) i) as [w|] eqn:Ew; [|congruence].
-  pose proof (cw_close_false_dead w) as Hd. destruct (cw_close false w) as [w1 b] eqn:Ec. cbn in Hd.
+  unfold pstep in H2. cbn [pstep_gen] in H2. rewrite Hm in H2. destruct (lookup (p_inst s1) i) as [w|] eqn:Ew; [|congruence].
+  pose proof (cw_close_false_dead w) as (Hd & Hcl). destruct (cw_close false w) as [w1 b] eqn:Ec. cbn in Hd, Hcl.
   assert (b = None) by (unfold cw_close in Ec; cbn in Ec; congruence). subst b.
   injection H2 as <-.
   assert (Hs : silent (mkP (removeN (p_map s1) ch) ((i, w1) :: p_inst s1) (p_ich s1) (p_refs s1) (p_timers s1)
                            (p_next s1) (emit (p_out s1) ch i None)) i).
-  { unfold silent, mapped, referenced; cbn. rewrite Nat.eqb_refl. repeat split; auto.
+  { unfold silent, mapped; cbn. rewrite Nat.eqb_refl. repeat split; auto.
     - (* no other channel maps to i *)
       clear - ND Hin. unfold removeN. induction (p_map s1) as [|[c k] m IH]; cbn; auto.
       cbn in ND. inversion ND; subst. destruct Hin as [E|Hin].
@@ -505,7 +502,7 @@ Proof.
       exfalso. apply H1. apply in_map_iff. exists (c', i). auto. }
     destruct (close_mapped_other false i m ((i, w1) :: insts) (emit out ch i b) w1 Hni) as (A & _).
     { cbn. rewrite Nat.eqb_refl. reflexivity. }
-    exists w1. split; [exact A|]. pose proof (cw_close_false_dead wj) as D. rewrite Ec in D. exact D.
+    exists w1. split; [exact A|]. pose proof (cw_close_false_dead wj) as (D & _). rewrite Ec in D. exact D.
   - apply IH with (ch := ch); auto. intros c0 i0 Hin0. cbn. destruct (j =? i0); [discriminate|]. apply (Hex c0). right; auto.
 Qed.
 
@@ -514,7 +511,7 @@ Theorem close_clears cf sched s s' :
   forall ch i, In (ch, i) (p_map s') -> exists w, lookup (p_inst s') i = Some w /\ dead w.
 Proof.
   intros H1 H2 ch i Hin. pose proof (WFp_run cf sched _ _ WFp_init H1) as (ND & HM & HI).
-  cbn [pstep] in H2. destruct (close_mapped false s) as [insts out] eqn:Ec. injection H2 as <-. cbn in *.
+  unfold pstep in H2. cbn [pstep_gen] in H2. destruct (close_mapped false s) as [insts out] eqn:Ec. injection H2 as <-. cbn in *.
   unfold close_mapped in Ec.
   destruct (close_mapped_dead (p_map s) (p_inst s) (p_out s) ND (fun c k Hk => proj2 (HM c k Hk)) ch i Hin) as (w & A & D).
   rewrite Ec in A. eauto.
